@@ -19,7 +19,7 @@ fn meta(ctx: &Ctx) -> Meta {
     Meta {
         level: "exploration",
         rule: format!(
-            "seeded builder configurations with a source date, biased to 2-6 distinct non-root owners and groups and file mtimes on both sides of the source date, each built {} times in this process and in {} freshly started processes (different hash seeds by construction, different TZ, working directory and environment); unsigned and signed with Ed25519 / ECDSA-P256 / RSA-4096 (deterministic schemes). Oracle: the set of distinct output byte strings per configuration must have size 1; BUILDTIME, every FILEMTIMES item and the OpenPGP signature creation time (read with the pgp crate) must be <= the source date. distinct_nontrivial = distinct configurations whose repeated builds were compared",
+            "seeded builder configurations with a source date, biased to 2-6 distinct non-root owners and groups and file mtimes on both sides of the source date, each built {} times in this process and in {} freshly started processes (different hash seeds by construction, different TZ, working directory and environment); unsigned and signed with Ed25519 / ECDSA-P256 / RSA-4096 (deterministic schemes). Oracle: the set of distinct output byte strings per configuration must have size 1; BUILDTIME, every FILEMTIMES item, the c_mtime of every entry of the decompressed archive and the OpenPGP signature creation time (read with the pgp crate) must be <= the source date. distinct_nontrivial = distinct configurations whose repeated builds were compared",
             ctx.tier.pick(5, 6),
             ctx.tier.pick(3, 4)
         ),
@@ -83,6 +83,22 @@ fn timestamps_ok(bytes: &[u8], sd: u32, signed: bool) -> Vec<(String, String)> {
         if let Some(bad) = m.iter().find(|t| **t > sd) {
             v.push(("file-mtime-after-source-date".to_string(), format!("a file modification time {bad} is later than the source date {sd}")));
         }
+    }
+    // the archive carries its own copy of every file time (c_mtime of each newc entry)
+    let comp = p.hdr.get_str(bytes, tag::PAYLOADCOMPRESSOR).map(|c| String::from_utf8_lossy(&c).into_owned());
+    match crate::model::cpio::decompress(comp.as_deref(), &bytes[p.payload_start..]) {
+        Ok(archive) => {
+            let sizes = crate::model::codec::decode_files(bytes, &p.hdr).map(|f| f.sizes).unwrap_or_default();
+            match crate::model::cpio::decode(&archive, &|i| sizes.get(i as usize).copied()) {
+                Ok((entries, _)) => {
+                    if let Some(bad) = entries.iter().find(|e| e.mtime > sd) {
+                        v.push(("payload-entry-time-after-source-date".to_string(), format!("the archive entry {:?} carries the time {} which is later than the source date {sd}", String::from_utf8_lossy(&bad.name), bad.mtime)));
+                    }
+                }
+                Err(e) => v.push(("payload-undecodable".to_string(), format!("built payload does not decode: {e}"))),
+            }
+        }
+        Err(e) => v.push(("payload-undecodable".to_string(), format!("built payload does not decompress: {e}"))),
     }
     if signed {
         use pgp::packet::{Packet, PacketParser};
